@@ -8,4 +8,8 @@ CLAIMED = {
   "text": "Proof: the filter loop, fan-out and error-handler model (coq/Model/Filters.v, a line-by-line transcription of lib.rs Appender::append / ConfiguredLogger::log / Log::log and filter/threshold.rs) is proved, for every chain, every attachment list and every level, to consult exactly the prefix up to the first decisive filter, deliver iff it accepts, keep each appender's observations independent of all others, and call the handler exactly once per failing delivery (7 theorems, closed under the global context). Tie to the code: the extracted model and the real Logger (scripted/spy filters, real ThresholdFilter, recording appenders, recording error handler) are run on all chains of length <= 4 plus random fan-outs and the full event logs must be equal.",
   "note": "Trusted: Coq kernel, extraction (ExtrOcamlBasic), OCaml driver, Rust harness, Python generators. The model is hand-written; agreement with the crate is established on the explored cases (exhaustive for chains <= 4 on one appender).",
  },
+ "C13": {
+  "text": "Proof: the model of config/runtime.rs (check_logger_name's streak automaton, build_lossy, build) is proved, for all inputs, (a) to accept exactly the names that are non-empty, do not end in ':', contain no three consecutive colons and no colon without a colon neighbour; (b) to return, in lossy mode, exactly the first occurrence of every appender name, the loggers whose name is new and well-formed, references filtered to existing appenders, all in original order, with exactly one error per offending item; (c) strict build succeeds iff names are unique, well-formed and all references resolve, and then returns the input unchanged; (d) every returned configuration is valid (NoDup names, resolving references) — what Logger::new relies on. Tie to the code: extracted model vs the real ConfigBuilder on every logger name over {a,:} up to length 7 (10 thorough), exhaustive small appender multisets and random mixes; kept items, first-occurrence identity, error multiset and Ok/Err compared, and every returned Config is installed in a Logger and logged through under catch_unwind.",
+  "note": "Trusted: Coq kernel, extraction (ExtrOcamlBasic), OCaml driver, Rust harness, Python generator. HashSet<String> is modelled by list membership. Error order is not constrained by the property and is compared as a multiset. Interpretation (DESIGN.md C13): a dangling reference held by a logger that is itself dropped is not reported separately.",
+ },
 }
